@@ -176,6 +176,12 @@ Theorem C04_lookup_asks_current_user :
 Proof. vm_compute. reflexivity. Qed.
 Print Assumptions C04_lookup_asks_current_user.
 
+(* a rename acts on the location the RNFR named when it was handled (and checked), not on whatever the RNFR argument
+   means under the working directory of the RNTO: closed check on the regenerated Gen/Dispatch.v *)
+Theorem C04_rename_source_resolved_at_rnfr : rename_source_resolved_at_rnfr Gen.Dispatch.handlers = true.
+Proof. vm_compute. reflexivity. Qed.
+Print Assumptions C04_rename_source_resolved_at_rnfr.
+
 (* the permission decision and the handler's own resolution of `rest` cannot be separated by a suspension (where a
    pipelined CWD could run): on TODAY's source PathPermissions is the innermost decorator of every handler that
    carries it -- the awaiting PathConditions and ConnectionConditions come before it -- and the body of every method
